@@ -14,10 +14,14 @@ The same harness body is run in two modes:
 from __future__ import annotations
 
 import math
+import sys
 import time
 from fractions import Fraction
 
 import z3
+
+if hasattr(sys, "set_int_max_str_digits"):
+    sys.set_int_max_str_digits(0)
 
 
 class Infeasible(BaseException):
@@ -744,13 +748,19 @@ class SymEngine:
             if not r:
                 return False
             m = self.solver.model()
-            if integral:
+            if integral and not self.nonlinear:
                 ints = [z3.IsInt(self.atoms[a]) for a in self.vars.values() if not self.atom_isint[a]]
                 if ints:
                     self.solver.push()
                     self.solver.add(*ints)
-                    if self._check():
+                    self.solver.set("timeout", 2000)
+                    t = time.perf_counter()
+                    r2 = self.solver.check()
+                    self.solver_time += time.perf_counter() - t
+                    self.nchecks += 1
+                    if r2 == z3.sat:
                         m = self.solver.model()
+                    self.solver.set("timeout", self.timeout_ms)
                     self.solver.pop()
             return self._with_model(m)
         finally:
